@@ -1,21 +1,35 @@
 //! Ad-hoc experiments (not part of any registered check).
 use memvid_core::{Memvid, PutOptions};
+fn opts(ts: i64) -> PutOptions {
+    let mut o = PutOptions::default();
+    o.timestamp = Some(ts);
+    o.auto_tag = false; o.extract_dates = false; o.extract_triplets = false; o.extraction_budget_ms = 0; o.instant_index = false;
+    o
+}
+fn verify(p: &std::path::Path, what: &str) {
+    let r = Memvid::verify(p, true).unwrap();
+    println!("{what}: {:?} {:?}", r.overall_status, r.checks.iter().map(|c| format!("{}={:?} {:?}", c.name, c.status, c.details)).collect::<Vec<_>>());
+}
 fn main() {
     let dir = vh::util::Scratch::new("probe");
     let p = dir.path("a.mv2");
     let mut m = Memvid::create(&p).unwrap();
-    println!("stats after create: lex_enabled={:?}", m.stats().map(|s| (s.lex_enabled, s.has_lex_index)));
-    let r = m.search(vh::corpus::request("hello", 3));
-    println!("search on empty: {:?}", r.map(|r| r.hits.len()));
-    let mut o = PutOptions::default();
-    o.timestamp = Some(1);
-    o.labels = vec!["blue".into()];
-    o.auto_tag = false; o.extract_dates = false; o.extract_triplets = false; o.extraction_budget_ms = 0;
-    println!("put: {:?}", m.put_bytes_with_options(b"kra1zto zq000x hello world", o));
-    println!("stats after put: lex_enabled={:?}", m.stats().map(|s| (s.lex_enabled, s.has_lex_index)));
-    let r = m.search(vh::corpus::request("zq000x", 3));
-    println!("search before commit: {:?}", r.map(|r| r.hits.iter().map(|h| h.frame_id).collect::<Vec<_>>()));
-    println!("commit: {:?}", m.commit());
-    let r = m.search(vh::corpus::request("zq000x", 3));
-    println!("search after commit: {:?}", r.map(|r| r.hits.iter().map(|h| h.frame_id).collect::<Vec<_>>()));
+    m.put_bytes_with_options(b"kra1zto zq000x hello world", opts(1)).unwrap();
+    m.commit().unwrap();
+    drop(m);
+    verify(&p, "after put+commit+drop");
+    let mut m = Memvid::open(&p).unwrap();
+    m.put_bytes_with_options(b"second doc", opts(2)).unwrap();
+    m.commit().unwrap();
+    m.delete_frame(0).unwrap();
+    m.commit().unwrap();
+    drop(m);
+    verify(&p, "after reopen+put+commit+delete+commit+drop");
+    let mut m = Memvid::open(&p).unwrap();
+    m.vacuum().unwrap();
+    drop(m);
+    verify(&p, "after vacuum+drop");
+    let m = Memvid::open(&p).unwrap();
+    drop(m);
+    verify(&p, "after open+drop");
 }
